@@ -125,6 +125,8 @@ class Universe:
                 extra["positional"] = True
             if f.get("help"):
                 extra["help"] = f["help"]
+            if f.get("metavar"):
+                extra["metavar"] = f["metavar"]
             if f.get("init") is False:
                 kw["init"] = False
             if extra:
